@@ -27,7 +27,7 @@ RollOver ==
         mm == (mz % 12) + 1
         r == IF yy >= 1 /\ yy <= 9999 THEN RollDays(yy, mm, d + hcarry, 800) ELSE [y |-> 0, m |-> 1, d |-> 1]
         n == Normalize(y, m, d, k, 0, 0, 0)
-    IN IF r.y = 0 THEN ~n.ok \/ TRUE
+    IN IF r.y = 0 THEN TRUE
        ELSE n.ok /\ CivilFromDays(n.d) = r /\ n.ms = (k % 24) * 3600000
 Inverse == LET n == Normalize(y, 1, d, 0, 0, 0, 0) IN n.ok => DaysFromCivil(CivilFromDays(n.d).y, CivilFromDays(n.d).m, CivilFromDays(n.d).d) = n.d
 \* a synthetic zone: +60 until 2024-03-10T01:00Z, then +120 (gap), back to +60 at 2024-11-03T00:00Z (fold), then +90
